@@ -134,6 +134,7 @@ fn act(c: &Ctx, path: usize, a: Act, journal: &ArcSentJournal<GuaranteedFrame>, 
             w.assemble_packet(&mut Packages((MaxDataFrame::new(VarInt::from_u32(1000 + path as u32)), PadTo20))).expect("something to send");
             let (_n, info) = w.encrypt_and_protect_packet();
             wire.reported.lock().unwrap().push((path, info.packet_number()));
+            c.log(&format!("sent {}", info.packet_number()));
         }
         Act::SendTrivial => {
             c.point("send-trivial:start");
@@ -142,6 +143,7 @@ fn act(c: &Ctx, path: usize, a: Act, journal: &ArcSentJournal<GuaranteedFrame>, 
             w.assemble_packet(&mut Packages((ack0(), PadTo20))).expect("something to send");
             let (_n, info) = w.encrypt_and_protect_packet();
             wire.reported.lock().unwrap().push((path, info.packet_number()));
+            c.log(&format!("sent-trivial {}", info.packet_number()));
         }
         Act::Abandon => {
             c.point("abandon:start");
